@@ -20,6 +20,9 @@ type c10Case struct {
 	Q      quote `json:"quote"`
 	Rel    int   `json:"rel"`                  // available amount relative to the reference thresholds
 	QForm  int   `json:"quote_form,omitempty"` // how the quote object is put together, see quote.libForm
+	// SharedPtr: the script object handed to Change is the very object output 0 already holds (tx.PayTo(s, n)
+	// followed by tx.Change(s, quote)); output 0 then carries the destination script
+	SharedPtr bool `json:"change_script_object_is_output0s,omitempty"`
 }
 
 // destinations: 0 address, 1 P2PKH script, 2 23-byte P2SH-form, 3 35-byte P2PK, 4 67-byte P2PK,
@@ -99,6 +102,9 @@ func c10Check(c c10Case) (fs []rep.Finding) {
 	ref := c10Build(c)
 	existing := c.Dest >= 8
 	destScript := c10DestScript(c.Dest)
+	if c.SharedPtr && len(ref.Outs) > 0 && destScript != nil {
+		ref.Outs[0].Script = append([]byte(nil), destScript...)
+	}
 	feeWith := c10FeeWith(ref, destScript, c.Q)
 	out := sumOut(ref)
 	slack := c10Slack(c.Q)
@@ -134,19 +140,25 @@ func c10Check(c c10Case) (fs []rep.Finding) {
 	before := tx.Bytes()
 	beforeExt := tx.ExtendedBytes()
 	fq := c.Q.libForm(c.QForm)
-	var err error
-	switch {
-	case c.Dest == 0:
-		err = tx.ChangeToAddress(refAddrEncode(fill(20, 0x77), true), fq)
-	case c.Dest <= 7:
-		err = tx.Change(libScript(destScript), fq)
-	case c.Dest == 8:
-		err = tx.ChangeToExistingOutput(0, fq)
-	case c.Dest == 9:
-		err = tx.ChangeToExistingOutput(uint(c.NOut-1), fq)
-	default:
-		err = tx.ChangeToExistingOutput(uint(c.NOut), fq)
+	// one script object for every call (the library keeps it in the output it adds)
+	destObj := libScript(destScript)
+	if c.SharedPtr && len(tx.Outputs) > 0 && c.Dest >= 1 && c.Dest <= 7 {
+		tx.Outputs[0].LockingScript = destObj
 	}
+	op := func() error {
+		switch {
+		case c.Dest == 0:
+			return tx.ChangeToAddress(refAddrEncode(fill(20, 0x77), true), fq)
+		case c.Dest <= 7:
+			return tx.Change(destObj, fq)
+		case c.Dest == 8:
+			return tx.ChangeToExistingOutput(0, fq)
+		case c.Dest == 9:
+			return tx.ChangeToExistingOutput(uint(c.NOut-1), fq)
+		}
+		return tx.ChangeToExistingOutput(uint(c.NOut), fq)
+	}
+	err := op()
 	kind := fmt.Sprintf("dest=%d", c.Dest)
 	if existing {
 		kind = "dest=existing"
@@ -239,6 +251,40 @@ func c10Check(c c10Case) (fs []rep.Finding) {
 	if left.Cmp(new(big.Int).Add(need, slack)) > 0 {
 		fs = append(fs, rep.F("overpays|"+kind+"|"+bound, fmt.Sprintf("fee left %s exceeds quoted fee %s by more than the slack %s", left, need, slack)))
 	}
+	if len(fs) > 0 {
+		return
+	}
+	// the same operation once more on the result (a wallet that recomputes change after every edit):
+	// the statement holds for this call as for the first - nothing that existed is touched (bar the
+	// designated output), no value appears, and the fee left still covers the quoted fee
+	if err2 := op(); err2 == nil {
+		after2, perr := txref.Parse(tx.ExtendedBytes())
+		if perr != nil {
+			return append(fs, rep.F("harness|unparsable-result", perr.Error()))
+		}
+		in2, out2 := sumIn(after2.Tx), sumOut(after2.Tx)
+		if out2.Cmp(in2) > 0 {
+			fs = append(fs, rep.F("second-call|creates-value|"+kind, fmt.Sprintf("outputs %s exceed inputs %s", out2, in2)))
+		}
+		if len(after2.Tx.Outs) < len(after.Tx.Outs) {
+			fs = append(fs, rep.F("second-call|output-removed|"+kind, "an output disappeared"))
+		} else {
+			for i := range after.Tx.Outs {
+				designated := existing && ((c.Dest == 8 && i == 0) || (c.Dest == 9 && i == c.NOut-1))
+				o1, o2 := after.Tx.Outs[i], after2.Tx.Outs[i]
+				if !bytes.Equal(o1.Script, o2.Script) || (!designated && o1.Sats != o2.Sats) || (designated && o2.Sats < o1.Sats) {
+					fs = append(fs, rep.F("second-call|earlier-output-touched|"+kind, fmt.Sprintf("output %d changed when change was computed a second time", i)))
+					break
+				}
+			}
+		}
+		c2 := *after2.Tx
+		_, std2, data2 := refSizes(refEstimated(&c2))
+		need2 := refFee(std2, data2, c.Q)
+		if left2 := new(big.Int).Sub(in2, out2); left2.Cmp(need2) < 0 {
+			fs = append(fs, rep.F("second-call|underpays|"+kind, fmt.Sprintf("after a second change computation the fee left %s is below the quoted fee %s", left2, need2)))
+		}
+	}
 	return
 }
 
@@ -250,7 +296,7 @@ var c10Quotes = []quote{
 
 func init() {
 	p := register(&Prop{ID: "C10", Level: "exploration",
-		Rule: "exhaustive product: inputs 1..3 P2PKH (unsigned / signed / first signed / last signed / unsigned and read back from its extended serialisation) x output counts {0,1,2,3,251,252,253,254} (and 252/253/254 INPUTS with 1, 2 or 253 outputs) x output mix (all standard / first data / alternating data / first the payload-less `00 6a` / first the bare `6a` / last one of 8 near-data scripts: `6a 00`, `6a 01 42`, `00 6a` + push, `00`, `00 51 6a`, empty, OP_RETURN not first, 75-byte payload) x 11 change destinations (address, P2PKH script, 23-byte P2SH form, 35- and 67-byte P2PK, 1-, 100- and 300-byte scripts, existing output first/last/out of range) x 15 fee quotes (for the small shapes also assembled with mislabelled, unlabelled and relabelled Fee objects, and refreshed from JSON into a quote object that already held default / other rates) (incl. >1 sat/byte, non-integral rates, unequal std/data rates and denominators) x 14 placements of the available amount relative to the big-integer reference thresholds (inputs<outputs, 0, fee-2..fee+3, fee+dust-1..fee+dust+2, just above the slack, ample). Oracle = the post-conditions of the statement computed with the reference fee model: earlier outputs and inputs untouched, outputs <= inputs, if changed: quoted fee(estimated final size) <= fee left <= quoted fee + ceil(9 bytes) + 9; if unchanged: remainder after the fee a change output needs <= dust (+ the same slack). distinct_nontrivial = distinct cases on which change returned without error",
+		Rule: "exhaustive product: inputs 1..3 P2PKH (unsigned / signed / first signed / last signed / unsigned and read back from its extended serialisation) x output counts {0,1,2,3,251,252,253,254} (and 252/253/254 INPUTS with 1, 2 or 253 outputs) x output mix (all standard / first data / alternating data / first the payload-less `00 6a` / first the bare `6a` / last one of 8 near-data scripts: `6a 00`, `6a 01 42`, `00 6a` + push, `00`, `00 51 6a`, empty, OP_RETURN not first, 75-byte payload) x 11 change destinations (for small shapes also with the script OBJECT handed to Change being the one output 0 already holds; address, P2PKH script, 23-byte P2SH form, 35- and 67-byte P2PK, 1-, 100- and 300-byte scripts, existing output first/last/out of range) x 15 fee quotes (for the small shapes also assembled with mislabelled, unlabelled and relabelled Fee objects, and refreshed from JSON into a quote object that already held default / other rates) (incl. >1 sat/byte, non-integral rates, unequal std/data rates and denominators) x 14 placements of the available amount relative to the big-integer reference thresholds (inputs<outputs, 0, fee-2..fee+3, fee+dust-1..fee+dust+2, just above the slack, ample). Oracle = the post-conditions of the statement computed with the reference fee model: earlier outputs and inputs untouched, outputs <= inputs, if changed: quoted fee(estimated final size) <= fee left <= quoted fee + ceil(9 bytes) + 9; if unchanged: remainder after the fee a change output needs <= dust (+ the same slack); after a change was added the same operation is applied ONCE MORE to the result and the same frame, no-value-created and fee-covered conditions are checked again. distinct_nontrivial = distinct cases on which change returned without error",
 	})
 	sp := NewSpace(p, "change", c10Check)
 	p.Run = func(r *rep.Run, thorough bool) {
@@ -292,7 +338,10 @@ func init() {
 									for rel := 0; rel < 14; rel++ {
 										yield(c10Case{NIn: nin, Signed: sg, NOut: nout, Mix: mix, Dest: d, Q: q, Rel: rel})
 										if nin == 1 && sg == 0 && nout <= 2 && mix <= 1 && d <= 1 {
-											for _, form := range []int{1, 2, 5, 7, 8} {
+											if d >= 1 && d <= 7 && nout >= 1 {
+												yield(c10Case{NIn: nin, Signed: sg, NOut: nout, Mix: mix, Dest: d, Q: q, Rel: rel, SharedPtr: true})
+											}
+											for _, form := range []int{1, 2, 5, 7, 8, 9} {
 												yield(c10Case{NIn: nin, Signed: sg, NOut: nout, Mix: mix, Dest: d, Q: q, Rel: rel, QForm: form})
 											}
 										}
